@@ -467,7 +467,10 @@ class G:
         if kind == "program":
             self.emit(depth, "program %s" % name, feat="program", opens=True)
         elif kind == "subroutine":
-            self.emit(depth, "subroutine %s(%s)" % (name, r.choice(["", "p1", "p1, p2"])), feat="subroutine", opens=True)
+            # alternate-return dummies ('*') included: analyze() of the pinned tree asserts on two of them, such
+            # programs are then counted as rejected and only the analyze=False half is compared
+            self.emit(depth, "subroutine %s(%s)" % (name, r.choice(["", "p1", "p1, p2", "p1, p2", "p1, *", "p1, *, p2, *", "*, *, *"])),
+                      feat="subroutine", opens=True)
         elif kind == "function":
             form = r.choice(["function %s(p1)", "real function %s(p1)", "function %s(p1) result(res)",
                              "integer function %s(p1) result(res)", "double precision function %s(p1) result(res)",
